@@ -499,3 +499,49 @@ mod tests {
         assert_eq!(iter.next(&sm), sm.insert(0));
     }
 }
+
+// Verification hooks. Compiled only with `--cfg evenio_verif`.
+#[cfg(evenio_verif)]
+impl<T> SlotMap<T> {
+    /// `(generation, next_free link if vacant)` for every slot, then
+    /// `next_free` and `len`.
+    pub(crate) fn verif_raw(&self) -> (Vec<(u32, Option<u32>)>, u32, u32) {
+        let slots = self
+            .slots
+            .iter()
+            .map(|s| {
+                (
+                    s.generation,
+                    s.is_vacant().then(|| unsafe { s.union.next_free }),
+                )
+            })
+            .collect();
+        (slots, self.next_free, self.len)
+    }
+
+    /// Overwrites the generation of an occupied slot with another odd
+    /// generation. Returns `false` (and does nothing) otherwise.
+    pub(crate) fn verif_set_generation(&mut self, index: u32, generation: u32) -> bool {
+        match self.slots.get_mut(index as usize) {
+            Some(slot) if !slot.is_vacant() && generation % 2 == 1 => {
+                slot.generation = generation;
+                true
+            }
+            _ => false,
+        }
+    }
+}
+
+#[cfg(evenio_verif)]
+impl<T> NextKeyIter<T> {
+    pub(crate) fn verif_index(&self) -> u32 {
+        self.index
+    }
+}
+
+#[cfg(evenio_verif)]
+impl Key {
+    pub(crate) fn verif_new(index: u32, generation: u32) -> Option<Self> {
+        Self::new(index, generation)
+    }
+}
